@@ -409,8 +409,19 @@ def run_site(case):
     elif site == 'grown_frame_rows':
         # a grow-only frame that received its second column later: rows and .values consolidate what the frame holds now
         f = sf.FrameGO.from_items([('ca', V.to_array(av, a))])
-        f['cb'] = V.to_array(bv, b)
-        how = (case.get('order') or [0])[0] % 3
+        order = case.get('order') or [0]
+        grow = (order[1] if len(order) > 1 else 0) % 4
+        if (case.get('mask') or [False])[0]:
+            f.values  # the row dtype has been resolved once before the frame grows
+        if grow == 0:
+            f['cb'] = V.to_array(bv, b)
+        elif grow == 1:
+            f.extend(sf.Frame.from_items([('cb', V.to_array(bv, b))]))
+        elif grow == 2:
+            f.extend(sf.Series(V.to_array(bv, b), name='cb'))
+        else:
+            f.extend_items([('cb', V.to_array(bv, b))])
+        how = order[0] % 6
         for i in range(n):
             if how == 0:
                 row = f.iloc[i]
@@ -418,9 +429,18 @@ def run_site(case):
             elif how == 1:
                 vals = f.values
                 ga, gb = vals[i, 0], vals[i, 1]
-            else:
+            elif how == 2:
                 t = list(f.iter_tuple(axis=1, constructor=tuple))[i]
                 ga, gb = t[0], t[1]
+            elif how == 3:
+                arr = list(f.iter_array(axis=1))[i]
+                ga, gb = arr[0], arr[1]
+            elif how == 4:
+                tr = f.transpose()
+                ga, gb = tr.iloc[0, i], tr.iloc[1, i]
+            else:
+                row = list(f.iter_series(axis=1))[i]
+                ga, gb = row.iloc[0], row.iloc[1]
             o.cell(av[i], ga, 'a')
             o.cell(bv[i], gb, 'b')
     elif site == 'frame_overlay':
